@@ -130,6 +130,17 @@ theorem final_change_min_ada (P : Params) (outs fo : List Output) (a : ChangeArg
 theorem no_merge_target_when_off (outs : List Output) (a : ChangeArgs) : mergeIndex outs a false = none := by
   simp [mergeIndex]
 
+def exP0 : Params := { cpb := 4310, maxValSize := 5000, keyDeposit := 2000000, poolDeposit := 500000000 }
+def exBurn : ChangeArgs :=
+  { fee := 170000
+    inputs := [⟨9000000, []⟩]
+    outputs := []
+    mint := [([1, 1], [([7], -5)])]
+    withdrawals := []
+    deposits := 0
+    addr := [0x60, 1, 2]
+    respect := true }
+
 /-- the refusal branches of `_calc_change` are exactly: requested not strictly below provided; ADA-only change
 below its minimum ADA (unless disabled); a bundle's minimum ADA not covered by the ADA left (unless disabled) -/
 theorem refuses_invalid_iff (P : Params) (a : ChangeArgs) :
@@ -167,6 +178,31 @@ theorem result_implies_covered (P : Params) (a : ChangeArgs) (cs : List Output) 
   cases hl : Value.lt (requested a) (provided a) with
   | true => rfl
   | false => rw [(refuses_invalid_iff P a).2 hl] at h; simp at h
+
+/-- `requested < provided` read on contents: `<` is `<=` and not `==`, and `<=` is the component-wise order for all
+operands (`Pyc.C05.le_iff`, after the repair of KF-C05-le-negative) — the refusal is exact: `_calc_change` raises
+`InvalidTransactionException` exactly when some requested amount (ADA or any asset, a burn of an asset the inputs do
+not hold included) is not covered by what is provided, or the two values are `==` -/
+theorem refuses_invalid_iff_componentwise (P : Params) (a : ChangeArgs) :
+    calcChange P a = .error .invalidTx ↔
+      ¬ (((requested a).coin ≤ (provided a).coin ∧
+          ∀ p n, Value.qty (requested a) p n ≤ Value.qty (provided a) p n) ∧
+         Value.eq (requested a) (provided a) = false) := by
+  rw [refuses_invalid_iff, ← Value.lt_iff_le_ne]
+  simp
+
+/-- no change is produced without every amount being covered: a result implies `requested ≤ provided` in ADA and in
+every asset (and `requested != provided`) — for all arguments -/
+theorem result_implies_covered_componentwise (P : Params) (a : ChangeArgs) (cs : List Output)
+    (h : calcChange P a = .ok cs) :
+    ((requested a).coin ≤ (provided a).coin ∧
+      ∀ p n, Value.qty (requested a) p n ≤ Value.qty (provided a) p n) ∧
+    Value.eq (requested a) (provided a) = false :=
+  (Value.lt_iff_le_ne _ _).1 (result_implies_covered P a cs h)
+
+/-- a burn of 5 units of an asset the inputs do not hold: `requested = Value(fee)`, `provided = inputs + mint` stores
+−5; while `<=` was key-directed `requested < provided` held and change was computed, now the builder refuses -/
+example : (match calcChange exP0 exBurn with | .error .invalidTx => true | _ => false) = true := by decide +kernel
 
 /-- token packing loses and duplicates nothing (shared with C06) -/
 theorem pack_preserves (P : Params) (addr : Bytes) (ch : Value) (hw : MultiAsset.WF ch.ma)
@@ -278,6 +314,8 @@ end Pyc.C08
 #print axioms Pyc.C08.change_min_ada
 #print axioms Pyc.C08.refuses_invalid_iff
 #print axioms Pyc.C08.result_implies_covered
+#print axioms Pyc.C08.refuses_invalid_iff_componentwise
+#print axioms Pyc.C08.result_implies_covered_componentwise
 #print axioms Pyc.C08.pack_preserves
 #print axioms Pyc.C08.foldl_count_ge
 #print axioms Pyc.C08.count_pos_iff
